@@ -1244,7 +1244,9 @@ void push_function_context () {
 
   if (last_function_context == MAX_FUNCTION_DEPTH - 1)
     {
-      yyerror ("Function pointers nested too deep");
+      /* fatal for this compile: the context is not pushed, so the parser must not go on to
+         reduce the matching pop_function_context() of this and the enclosing literals */
+      lexerror ("Function pointers nested too deep");
       return;
     }
   fc = &function_context_stack[++last_function_context];
